@@ -68,6 +68,13 @@ def cells(ireg, freg, ireg2, freg2, call_int, call_float):
             out.append(('call-arg S<-%s' % ta, '%s(%s);' % (call_int, a), 'accept' if ta == 'i' else 'reject'))
             out.append(('call-arg f<-%s' % ta, '%s(%s);' % (call_float, a), 'accept' if ta == 'f' else 'reject'))
             out.append(('cond-jump %s' % ta, 'if (%s) goto lbl;\nlbl:' % a, ok))
+    # calls whose signature has padding between parameters of different types: the argument types follow the parameters, not the slots
+    for fn, want_types in (('pad_Sf', 'if'), ('pad_fS', 'fi'), ('pad_bf', 'if'), ('pad_f__S', 'fi')):
+        for t1 in 'if':
+            for t2 in 'if':
+                out.append(('call-args-with-padding %s(%s,%s)' % (fn, t1, t2), '%s(%s, %s);' % (fn, A(t1, 0), A(t2, 1)), 'accept' if t1 + t2 == want_types else 'reject'))
+        out.append(('call-args-with-padding %s arity' % fn, '%s(%s);' % (fn, A(want_types[0], 0)), 'reject'))
+        out.append(('call-args-with-padding %s arity+' % fn, '%s(%s, %s, 0);' % (fn, A(want_types[0], 0), A(want_types[1], 1)), 'reject'))
     # consts: readable in their own type, never writable, and a string const takes no sigil
     C = 'const int KCI = 3;\nconst float KCF = 1.5;\nconst string KCS = "abc";\n'
     for k, (stmt, want) in enumerate([
